@@ -448,6 +448,18 @@ pub fn check(tier: &str) -> i32 {
         n_scaling += 1;
         jobs.push(Job { seed: "scaling".into(), file: case.start.clone(), kind: "scaling-document".into(), detail: d, depth: 0, case });
     }
+    // invalid components (a required attribute is missing) whose other attributes hold long non-ASCII
+    // text, at every byte shift 0..3: error messages are built from the node's text
+    for shift in 0..4usize {
+        for filler in ["\u{df}", "\u{65e5}", "\u{1d11e}"] {
+            let pad = "x".repeat(shift);
+            let long: String = filler.repeat(160);
+            let text = format!("<xs:schema xmlns:xs=\"http://www.w3.org/2001/XMLSchema\" targetNamespace=\"urn:t\"><xs:complexType Name=\"{pad}{long}\" id=\"{long}\"><xs:sequence><xs:element Name=\"{pad}{long}\" type=\"xs:string\"/></xs:sequence></xs:complexType><xs:simpleType title=\"{pad}{long}\"><xs:restriction base=\"xs:string\"/></xs:simpleType></xs:schema>");
+            jobs.push(Job { seed: "invalid-non-ascii".into(), file: "t.xsd".into(), kind: "missing-attribute-next-to-long-non-ascii-text".into(), detail: format!("shift={shift} filler=U+{:04X}", filler.chars().next().unwrap() as u32), depth: 0, case: Case::single("t.xsd", &text) });
+            let wsdl = format!("<wsdl:definitions xmlns:wsdl=\"http://schemas.xmlsoap.org/wsdl/\" targetNamespace=\"urn:t\"><wsdl:message title=\"{pad}{long}\"><wsdl:part name=\"p\" element=\"x\"/></wsdl:message><wsdl:portType title=\"{pad}{long}\"/></wsdl:definitions>");
+            jobs.push(Job { seed: "invalid-non-ascii".into(), file: "t.wsdl".into(), kind: "missing-attribute-next-to-long-non-ascii-text".into(), detail: format!("wsdl shift={shift} filler=U+{:04X}", filler.chars().next().unwrap() as u32), depth: 0, case: Case::single("t.wsdl", &wsdl) });
+        }
+    }
     // the designated start file is not among the registered files
     {
         let mut c = crate::seeds::s0().to_case();
